@@ -9,6 +9,7 @@ the returned fields in the documented closed form of the special case D = D_j,
 import EPV.Gen.SDRZProfile
 import EPV.Gen.SDRZTail
 import EPV.Tactics
+import EPV.Lemmas.Bridge.DetonTactics
 
 set_option linter.all false
 
@@ -54,9 +55,9 @@ theorem closed_form (p : SDRZProfile.P) (t : ℝ) (h : SDRZProfile.outcome p t =
          | (have ht : t = 1 := by nlinarith
             subst ht
             refine ⟨?_, ?_, ?_, ?_, ?_, by assumption, by assumption⟩ <;> simp only [epv_leaf] <;>
-              (try rw [hg1]) <;> (try rw [div_self hD]) <;> (try field_simp) <;> (try ring))
+              (repeat epv_deton_sqrt_rw (0 : ℝ)) <;> epv_deton_feqd)
          | (refine ⟨?_, ?_, ?_, ?_, ?_, by assumption, by assumption⟩ <;> simp only [epv_leaf] <;>
-              (try rw [hg]) <;> (try rw [div_self hD]) <;> (try field_simp) <;> (try ring)))
+              (repeat epv_deton_sqrt_rw (1 - t)) <;> epv_deton_feqd))
 
 /-- the returned fields behind the reaction zone (t ≥ 1): the Chapman–Jouguet state -/
 theorem tail_closed_form (p : SDRZTail.P) (t : ℝ) (h : SDRZTail.outcome p t = .ok)
@@ -81,6 +82,6 @@ theorem tail_closed_form (p : SDRZTail.P) (t : ℝ) (h : SDRZTail.outcome p t = 
        first
          | (exfalso; nlinarith)
          | (refine ⟨?_, ?_, ?_, ?_, ?_, by assumption, by assumption⟩ <;> simp only [epv_leaf] <;>
-              (try rw [hg1]) <;> (try rw [div_self hD]) <;> (try field_simp) <;> (try ring)))
+              (repeat epv_deton_sqrt_rw (0 : ℝ)) <;> epv_deton_feqd))
 
 end EPV.SDRZ
